@@ -1,41 +1,51 @@
 import TinsModel.Tcp.Spec
-import TinsModel.Tcp.Flow
+import TinsModel.Follower.Model
 import TinsModel.Tcp.Legacy
+import Driver.C06Sessions
 import Driver.Util
 /- line-protocol driver for C06: model mode and spec (oracle) mode.
    Three op families, one per harness:
      init/seg/adv                         DataTracker            (harness/c06_tracker.cpp)
-     finit/fseg/fsegp/fbare/fadv/fignore  Flow::process_packet   (harness/c06_flow.cpp)
-     linit/lseg/lsegp/lbare               legacy TCPStreamFollower (harness/c06_legacy.cpp) -/
+     finit/fseg/fsegp/fbare/fadv/fignore/fpkt/fpktp  Flow::process_packet, through the C07 model of the Flow state machine
+                                          (TinsModel/Follower/Model.lean `SF.Flow`; harness/c06_flow.cpp)
+     linit/lseg/lsegp/lbare               legacy TCPStreamFollower (harness/c06_legacy.cpp)
+     minit/mconn/mpkt/mpktp               its session table, any number of connections (Driver/C06Sessions.lean) -/
 namespace Driver.C06
 open Tins Tins.DT Driver
 
 structure MState where
   t : Tracker := Tracker.init 0
-  flow : Flow := Flow.init 0
+  flow : SF.Flow := SF.Flow.init false 0 80 0
   lc : LStream := LStream.init 0
   ls : LStream := LStream.init 0
-
-/-- `<key>:<hex>` for chunks of at most 32 bytes, `<key>:#<len>.<fnv64>` for longer ones (harness/c06_show.h) -/
-def showChunk (c : Nat × Bytes) : String :=
-  if c.2.length ≤ 32 then s!"{c.1}:{toHex c.2}" else s!"{c.1}:#{c.2.length}.{fnv c.2}"
-
-def showChunks (m : Chunks) : String :=
-  joinWith "," ((sortByKey m).map showChunk)
+  fol : LFollower := {}
 
 def showState (r : String) (t : Tracker) : String :=
   s!"{r} seq={t.seq} total={t.total} plen={t.payload.length} ph={fnv t.payload} buf={showChunks t.buf}"
 
-def showDir (t : LStream) : String :=
-  s!"{t.seq}/{t.payload.length}/{fnv t.payload}/{showChunks t.frags}"
-
 def showLegacy (r : Bool) (st : MState) : String :=
   s!"r={if r then 1 else 0} end=0 c={showDir st.lc} s={showDir st.ls}"
 
-def showFlow (ev : FlowEvents) (f : Flow) : String :=
-  showState s!"{if ev.data then "r=1" else "r=0"} ooo={if ev.outOfOrder then 1 else 0}" f.tracker
+def stateNum : SF.FState → Nat
+  | .unknown => 0 | .synSent => 1 | .established => 2 | .finSent => 3 | .rstSent => 4
+
+/-- `<r> ooo=<n> st=<state> seq=.. total=.. plen=.. ph=.. buf=..` (harness/c06_flow.cpp) -/
+def showFlowState (r : String) (ooo : Bool) (f : SF.Flow) : String :=
+  showState s!"{r} ooo={if ooo then 1 else 0} st={stateNum f.state}" f.tr
+
+/-- the packet the flow harness builds: `IP(10.0.0.2 <- 10.0.0.1) / TCP(80 <- 4321, seq, flags) [/ RawPDU]`, no options -/
+def flowPkt (flags seq : Nat) (payload : Option Bytes) : SF.Pkt :=
+  { v6 := false, src := 167772161, sport := 4321, dst := 167772162, dport := 80, flags := flags, seq := seq, ack := 0,
+    payload := payload, mss := none, sackOk := false, ts := 0 }
+
+def flowStep (st : MState) (flags seq : Nat) (payload : Option Bytes) : MState × String :=
+  let r := st.flow.processPacket (flowPkt flags seq payload)
+  ({ st with flow := r.1 }, showFlowState (if r.2.2 then "r=1" else "r=0") r.2.1.isSome r.1)
 
 def step (st : MState) (line : String) : MState × String :=
+  match stepSessions st.fol (words line) with
+  | some (f, out) => ({ st with fol := f }, out)
+  | none =>
   match words line with
   | "init" :: n :: _ => match n.toNat? with
     | some k => let t' := Tracker.init k; ({ st with t := t' }, showState "init" t')
@@ -48,29 +58,33 @@ def step (st : MState) (line : String) : MState × String :=
   | "adv" :: n :: _ => match n.toNat? with
     | some k => let t' := advanceSequence st.t k; ({ st with t := t' }, showState "adv" t')
     | none => (st, "bad-op")
-  -- Flow
+  -- Flow (the C07 model of the state machine; `fseg` etc. carry the ACK flag only)
   | "finit" :: n :: _ => match n.toNat? with
-    | some k => let f := Flow.init k; ({ st with flow := f }, showState "finit ooo=0" f.tracker)
+    | some k => let f := SF.Flow.init false 167772162 80 k; ({ st with flow := f }, showFlowState "finit" false f)
     | none => (st, "bad-op")
   | "fseg" :: n :: h :: _ => match n.toNat?, parseHex h with
-    | some k, some d =>
-      let (f, ev) := st.flow.processPacket k (some d)
-      ({ st with flow := f }, showFlow ev f)
+    | some k, some d => flowStep st 16 k (some d)
     | _, _ => (st, "bad-op")
   | "fsegp" :: n :: h :: _ => match n.toNat?, parseHex h with
-    | some k, some d =>
-      -- a parsed TCP segment without payload bytes has no RawPDU layer
-      let (f, ev) := st.flow.processPacket k (if d.isEmpty then none else some d)
-      ({ st with flow := f }, showFlow ev f)
+    -- a parsed TCP segment without payload bytes has no RawPDU layer
+    | some k, some d => flowStep st 16 k (if d.isEmpty then none else some d)
     | _, _ => (st, "bad-op")
   | "fbare" :: n :: _ => match n.toNat? with
-    | some k => let (f, ev) := st.flow.processPacket k none; ({ st with flow := f }, showFlow ev f)
+    | some k => flowStep st 16 k none
     | none => (st, "bad-op")
+  | "fpkt" :: fl :: n :: h :: _ => match fl.toNat?, n.toNat?, (if h == "~" then some none else (parseHex h).map some) with
+    | some fl, some k, some pl => flowStep st (fl % 4096) k pl
+    | _, _, _ => (st, "bad-op")
+  | "fpktp" :: fl :: n :: h :: _ => match fl.toNat?, n.toNat?, (if h == "~" then some none else (parseHex h).map some) with
+    | some fl, some k, some pl => flowStep st (fl % 4096) k (match pl with | some [] => none | x => x)
+    | _, _, _ => (st, "bad-op")
   | "fadv" :: n :: _ => match n.toNat? with
-    | some k => let f := st.flow.advanceSequence k; ({ st with flow := f }, showState "fadv ooo=0" f.tracker)
+    | some k =>
+      let f : SF.Flow := { st.flow with tr := advanceSequence st.flow.tr k }
+      ({ st with flow := f }, showFlowState "fadv" false f)
     | none => (st, "bad-op")
   | "fignore" :: _ =>
-    let f := { st.flow with ignoreData := true }; ({ st with flow := f }, showState "fignore ooo=0" f.tracker)
+    let f : SF.Flow := { st.flow with ignoreData := true }; ({ st with flow := f }, showFlowState "fignore" false f)
   -- legacy follower
   | "linit" :: c :: s :: _ => match c.toNat?, s.toNat? with
     | some c, some s =>
@@ -112,42 +126,9 @@ structure OState where
   /-- `frontier h s.length`, followed incrementally (`frontier_cons_advance` in TinsModel/Tcp/LemmasRefine.lean) -/
   k : Nat := 0
   unspecified : Bool := true
-
-def kv (ws : List String) (key : String) : Option String :=
-  ws.findSome? (fun w => if w.startsWith (key ++ "=") then some ((w.drop (key.length + 1)).toString) else none)
-
-/-- a buffered chunk as printed by a harness: its bytes, or (for long chunks) length and FNV-1a 64 -/
-inductive ChunkRepr
-  | data (d : Bytes)
-  | hashed (len : Nat) (h : Nat)
-
-def parseBuf (s : String) : Option (List (Nat × ChunkRepr)) :=
-  if s == "" then some [] else
-  (s.splitOn ",").mapM (fun item => match item.splitOn ":" with
-    | [k, h] => do
-      let k ← k.toNat?
-      if h.startsWith "#" then
-        match ((h.drop 1).toString).splitOn "." with
-        | [l, f] => do let l ← l.toNat?; let f ← f.toNat?; pure (k, ChunkRepr.hashed l f)
-        | _ => none
-      else do let d ← parseHex h; pure (k, ChunkRepr.data d)
-    | _ => none)
-
-/-- A hashed chunk is turned back into bytes for `specOKat`: the slice of the stream it must equal if length and
-    hash match that slice, otherwise bytes that make the check fail (out of bounds → the length alone fails it;
-    hash mismatch → every byte differs from the slice). -/
-def resolveChunk (s : Bytes) (k seq : Nat) (c : Nat × ChunkRepr) : Nat × Bytes :=
-  match c.2 with
-  | .data d => (c.1, d)
-  | .hashed len h =>
-    let a := k + sub32 c.1 seq
-    let d := (s.drop a).take len
-    if d.length == len && (fnv d).toNat == h then (c.1, d)
-    else if d.length == len then (c.1, d.map (· + 1))
-    else (c.1, List.replicate len 0)
-
-def parseInt (s : String) : Option Int :=
-  if s.startsWith "-" then (s.drop 1).toString.toNat?.map (fun n => - (n : Int)) else s.toNat?.map (fun n => (n : Int))
+  fol : OFol := {}
+  /-- Flow: no segment with SYN, FIN or RST has been seen since the flow was created (`Flow::state() == UNKNOWN`) -/
+  flowUnknown : Bool := true
 
 /-- what one operation means for the spec: a new stream, an arrival, no arrival, or "outside the spec" -/
 inductive OpKind
@@ -175,6 +156,36 @@ def opKind (ws : List String) : OpKind :=
   | ["fbare", _] | ["lbare", "c", _] => .nothing
   | "lseg" :: "s" :: _ | "lsegp" :: "s" :: _ | "lbare" :: "s" :: _ => .other
   | _ => .leave
+
+/-- `fpkt <flags> <seq> <hex|~> [@off]` (Flow): the first segment with SYN (and neither FIN nor RST) opens the flow — the expected
+    sequence number becomes its sequence number + 1, which is specified here for a flow that has not seen data yet — and the
+    payload of ANY segment, whatever its flags and whatever the state, is an arrival at the offset its sequence number names
+    (one past the sequence number of a SYN segment) -/
+def flowPktKind (st : OState) (ws : List String) : Option (OState × OpKind) :=
+  match ws with
+  | op :: fl :: seq :: h :: rest =>
+    if op == "fpkt" || op == "fpktp" then
+      match fl.toNat?, seq.toNat? with
+      | some fl, some seq =>
+        let syn := fl.testBit 1
+        let fin := fl.testBit 0
+        let rst := fl.testBit 2
+        let opens := syn && !fin && !rst && st.flowUnknown
+        let st1 : OState := if syn || fin || rst then { st with flowUnknown := false } else st
+        if opens && !st.h.isEmpty then some ({ st1 with unspecified := true }, .leave) else
+        let st2 : OState := if opens then { st1 with isn := wrap32 (seq + 1) } else st1
+        let kind : OpKind :=
+          if h == "~" then .nothing else
+          match rest with
+          | [off] =>
+            match parseHex h, parseInt ((off.drop 1).toString) with
+            | some d, some o => .arrival o d.length true (op == "fpktp" && d.isEmpty)
+            | _, _ => .leave
+          | _ => .leave
+        some (st2, kind)
+      | _, _ => none
+    else none
+  | _ => none
 
 /-- the observable state printed by a harness, in the tracker's vocabulary -/
 structure Seen where
@@ -208,7 +219,10 @@ def parseSeen (out : String) : Option Seen :=
 def specStep (st : OState) (line : String) : OState × String :=
   match line.splitOn " ||| " with
   | [op, out] =>
-    let kind := opKind (words op)
+    match specSessions st.fol (words op) out with
+    | some (f, verdict) => ({ st with fol := f }, verdict)
+    | none =>
+    let (st, kind) := (flowPktKind st (words op)).getD (st, opKind (words op))
     let kOld := st.k
     let st' : OState := match kind with
       | .start isn s => { s := s, isn := isn, h := [], k := 0, unspecified := false }
